@@ -256,7 +256,12 @@ finish:
   child.err = redirect_destroy(child.err, options.redirect.err.type);
 #endif
 
-  pipe_destroy(child.exit);
+  if (r != 0) {
+    // In the forked child (`r == 0`) the exit pipe has to stay open until the
+    // child exits: closing it here would signal the parent that the child has
+    // exited while it is still running.
+    pipe_destroy(child.exit);
+  }
 
   if (r < 0) {
     process->handle = process_destroy(process->handle);
